@@ -29,6 +29,13 @@ func OperandMatrix() []string {
 		"func h6() (string, string, int) {\nfor nmB {\nreturn %s\n}\nreturn \"\", \"\", 0\n}\na, b, c := h6()",
 		"func h7() {\nswitch nmI {\ncase 1:\nreturn %s\n}\n}\nh7()",
 		"func h8() []int {\nif nmB {\nreturn %s\n}\nreturn nmL\n}\nx := h8()",
+		"func h11() int {\nif nmB {\n} else {\nreturn %s\n}\n}\nx := h11()",
+		"func h12() int {\nswitch {\ndefault:\nreturn %s\n}\n}\nx := h12()",
+		"func h13() int {\nswitch nmI {\ncase 1:\ndefault:\nreturn %s\n}\n}\nx := h13()",
+		"func h14() int {\nfor nmB {\nreturn %s\n}\n}\nx := h14()",
+		"func h15() int {\nif nmB {\nreturn %s\n}\n}\nx := h15()",
+		"func h16() (int, string) {\nif nmB {\n// nothing\n} else if nmI == 1 {\n} else {\nreturn %s\n}\n}\nx, y := h16()",
+		"func h17() int {\nif nmB {\nreturn 1\n} else {\nreturn %s\n}\n}\nx := h17()",
 		"func h9(p int) int {\nreturn p\n}\nx := h9(%s)",
 		"func h10(p []int, q string) {\n}\nh10(%s, %s)",
 	}
